@@ -226,6 +226,38 @@ def build(run):
                               f"energy_norm({fname})", tmo)
         run.add(f"energy_norm/{fname}", en_ob, kind="values")
 
+        def en_default(mkA=mkA, fname=fname):
+            """energy_norm(a) without a coefficient must be a(w, w) for ONE new coefficient w in the trial space"""
+            a = mkA()
+            try:
+                r = energy_norm(a)
+            except ValueError as ex:
+                return proved("refused", sample=f"energy_norm refuses: {ex}"[:200])
+            new = [c_ for c_ in r.coefficients() if c_ not in a.coefficients()]
+            if len(new) != 1 or new[0].ufl_function_space() != a.arguments()[-1].ufl_function_space():
+                return violated(f"energy_norm({fname}) without a coefficient introduces {len(new)} new coefficients {[str(c_) for c_ in new]}: it is not a(w, w) for a single w",
+                                replay={"form": fname, "new_coefficients": [repr(c_) for c_ in new]}, reproduced=True, backend="exec")
+            co = new[0]
+            from ufl.algorithms import expand_derivatives
+            ae = expand_derivatives(a)
+            return check_form(world(complex_mode=True), r, lambda w, key: part_sum(derive_world(w, subst={0: co, 1: co}), form_parts(ae).get(key, [])), [ae],
+                              f"energy_norm({fname}) default coefficient", tmo)
+        run.add(f"energy_norm-default-coefficient/{fname}", en_default, kind="values")
+
+        def act_default(mkA=mkA, fname=fname):
+            """action(a) without a coefficient replaces the last argument by ONE new coefficient"""
+            a = mkA()
+            r = action(a)
+            new = [c_ for c_ in r.coefficients() if c_ not in a.coefficients()]
+            if len(new) != 1:
+                return violated(f"action({fname}) without a coefficient introduces {len(new)} new coefficients", replay={"form": fname}, reproduced=True)
+            co = new[0]
+            from ufl.algorithms import expand_derivatives
+            ae = expand_derivatives(a)
+            return check_form(world(complex_mode=True), r, lambda w, key: part_sum(derive_world(w, subst={1: co}), form_parts(ae).get(key, [])), [ae],
+                              f"action({fname}) default coefficient", tmo)
+        run.add(f"action-default-coefficient/{fname}", act_default, kind="values")
+
     def canary():
         F = u * v * dx - f * v * dx
         return check_form(world(), lhs(F), lambda w, key: N.neg(part_sum(derive_world(w, scale={0: 1, 1: 0}), form_parts(F).get(key, []))), [F], "canary lhs is not rhs")
